@@ -1,5 +1,9 @@
+"""Mutation self-test for C15 / C16 (development aid, not a registered command).
+Applies small semantic mutants to a scratch worktree of /repo (created under /tmp, removed at the
+end), checks that each still passes `go test ./...` and that `./check Cxx --tier quick` reports it.
+Usage: python3 props/C15/mutation_selftest.py [name-prefix ...]"""
 import subprocess, sys, os, json
-WT='/tmp/wt/C15'
+WT='/tmp/wt/mut-C15C16'
 ENV=dict(os.environ, GOFLAGS='-mod=mod', GOPROXY='off')
 def sh(cmd, cwd=None, env=None):
     p=subprocess.run(cmd, shell=True, cwd=cwd, env=env, stdout=subprocess.PIPE, stderr=subprocess.STDOUT)
@@ -41,7 +45,9 @@ M=[
  ("C15-n9 saver attributes from the map again", "C15", "saver.go",
   '	for _, att := range s.attributeOrder {', '	for _, att := range s.refAttributes {'),
 ]
-only = sys.argv[1:] 
+only = sys.argv[1:]
+if not os.path.exists(WT):
+    sh('git -C /repo worktree add --detach %s main' % WT)
 res=[]
 for name, prop, f, old, new in M:
     if only and not any(name.startswith(o) for o in only): continue
@@ -58,3 +64,4 @@ for name, prop, f, old, new in M:
     res.append((name,tests,verdict+': '+', '.join(sigs[:6])))
     print(name,'|',tests,'|',verdict, sigs[:6], flush=True)
 sh('git checkout -q .', cwd=WT)
+sh('git -C /repo worktree remove --force %s' % WT)
